@@ -128,6 +128,8 @@ NoOutputUnlessDone == pc \in {"err", "panic"} => TRUE
 EntropyComputedOnce == pc = "done" => entropyCalls = 1
 DrawBudget == ndraws <= (IF r.len > 0 THEN 3 * r.len + 1 ELSE 0)
 RecipeNeverWritten == [][r' = r]_vars
+\* C09: after a failing read nothing more happens - in particular nothing is returned
+PanicIsTerminal == [][pc = "panic" => pc' = "panic"]_vars
 Terminates == <>(pc \in {"done", "err", "panic"})
 
 \* ---------------- C04 as a counting statement over the complete choice cell ----------------
